@@ -70,7 +70,14 @@ def template_of(t, escaped, refine=None):
     parts = []
     holes = []
 
-    def walk(t):
+    def walk(t, esc_all=False):
+        if t[0] == "call" and t[1][0] == "attr" and t[1][2] == "replace" \
+                and t[2] == (A.const("$"), A.const("$$")) \
+                and classify_hole(t[1][1])[0] is None:
+            # the escape is applied to a composite: every hole inside it is
+            # printed escaped
+            walk(t[1][1], True)
+            return
         if t[0] == "const" and isinstance(t[1], str):
             parts.append(("lit", t[1]))
         elif t[0] == "fstr":
@@ -78,16 +85,16 @@ def template_of(t, escaped, refine=None):
                 if isinstance(p, str):
                     parts.append(("lit", p))
                 else:
-                    walk(p)
+                    walk(p, esc_all)
         elif t[0] == "binop" and t[1] == "Add" and classify_hole(t)[0] is None:
-            walk(t[2])
-            walk(t[3])
+            walk(t[2], esc_all)
+            walk(t[3], esc_all)
         else:
             h, esc = classify_hole(t)
             if h is None:
                 raise AnalysisError("Section.__str__ prints a term outside "
                                     "the template vocabulary: %s" % A.fmt(t))
-            if esc:
+            if esc or esc_all:
                 escaped.add(h)
             parts.append(("hole", h))
             holes.append(h)
@@ -180,16 +187,18 @@ def run(ctx):
     # ------------------------------------------------------------------ R1
     # reader side: which stored fields went through self.replace()?
     reader = {"value": _passes_replace(ctx, "handle_key_value"),
-              "pkg": _passes_replace(ctx, "handle_import")}
+              "pkg": _passes_replace(ctx, "handle_import"),
+              # keys, section types and names are stored as written
+              "key": False, "type": False, "name": False}
     for hole, through in sorted(reader.items()):
         run.check((hole in escaped) == through, "C17.R1",
                   fn.qualname, "escape of " + hole,
                   "reader expands '$$' in this field: %s; printer escapes "
                   "'$' as '$$': %s" % (through, hole in escaped),
-                  "the reader passes %s through $-substitution (%s) but the "
-                  "printer %s '$': 'k a$$b' prints as 'k a$b', which does not "
-                  "reload" % (hole, through, "escapes" if hole in escaped
-                              else "does not escape"),
+                  "the reader passes %s through $-substitution: %s, but the "
+                  "printer %s '$' in it: the printed text does not reload to "
+                  "the same %s" % (hole, through, "escapes" if hole in escaped
+                                   else "does not escape", hole),
                   loc=m.loc(fn, fn.node))
 
     # ------------------------------------------------------------------ R2
